@@ -722,7 +722,7 @@ Print Assumptions C15_py_item_line_free.
    `from __future__ import annotations`, the sorted `from M import a, b` lines, one  T = TypeVar("T")  line per collected
    generic parameter, the helper functions of the custom JSON translations (bytes / datetime); then the body: the items in
    topological order with the printer state threaded through them), no neutrality hypothesis.  For every parsed program
-   whose items are in the class of C15_py_item and whose struct / enum generic parameters may be printed raw between
+   whose items are in the class of C15_py_item and whose struct / enum / alias generic parameters (write_type_alias declares its own: python.rs:280) may be printed raw between
    double quotes ([c15_py_item_typevars_ok], Spec/C15RenderPyFile.v: non-empty, no double quote, backslash, LF, CR - the
    TypeVar line prints the name bare and quoted), with type_mappings targets as there and a version string without three
    double quotes in a row ([c15_py_version_ok]: it is printed verbatim inside the docstring at the top of the file): the
